@@ -97,7 +97,7 @@ def _all_map_check_only(ex, node, st):
     return outs
 
 
-@contract(f"{DM}:check_only", props=["C08"])
+@contract(f"{DM}:check_only", props=["C01", "C08"])
 class CheckOnly:
     """C08: `check_only(m)` implies that m returns its datum as is whenever it accepts it -- the
     fact that makes ListCheckOnlyMethod / MappingCheckOnly / SimpleObjectMethod interchangeable
